@@ -93,6 +93,8 @@ def run(ctx, chk, tier="quick"):
         return
     sy, tr, grid, mean, curv, et = p[:6]
     from ..perm import sorted_values_regathered
+    from ..perm import fixed_order_quadrature
+    fixed_order_quadrature(ctx, chk, "C18.O2", ('simulate_recession',), "simulate_recession", 'a cell integral from a fixed-order rule is not the integral of the water-balance integrand between the two levels: refining the grid changes values at shared levels')
     sorted_values_regathered(ctx, chk, "C18.O2", ('simulate_recession', 'transmissivity'), "simulate_recession")
     facts, probs = simfacts.extract(ctx, f, grid, mean)
     simfacts.report(chk, "C18.O2", "C18.O2", f, facts, probs, "elapsed time", "quadrature of the integrand")
